@@ -32,7 +32,7 @@ type Facts struct {
 	Tables        map[string]interface{} `json:"tables"`        // F9
 	Funcs         map[string]*FuncFacts  `json:"funcs"`         // F4-F8 per function (module-local)
 	ExternalCalls []ExtCall              `json:"external_calls"`
-	Sites         []*Site                `json:"sites"`          // F8
+	Sites         []*Site                `json:"sites"`                  // F8
 	Excluded      []ExcludedReg          `json:"excluded_registrations"` // F1: registration calls in files outside the default build
 	Errors        []string               `json:"errors"`
 	Stats         map[string]int         `json:"stats"`
@@ -61,15 +61,16 @@ type Registration struct {
 	StatusUnk    string `json:"status_unknown,omitempty"`
 	Configurable bool   `json:"configurable"`
 	// F4/F5 (transitive, module-local callees)
-	Reads          []string `json:"reads"`
-	Writes         []string `json:"writes"`
-	ObjMethods     []string `json:"obj_methods"`
-	GlobalsRead    []string `json:"globals_read"`
-	GlobalsWritten []string `json:"globals_written"`
-	Reach          []string `json:"reach"`
-	SigContent     bool     `json:"reads_signature_content"`
-	ObjAppends     []string `json:"obj_appends"`
-	ctorPos token.Pos
+	Reads             []string `json:"reads"`
+	Writes            []string `json:"writes"`
+	ObjMethods        []string `json:"obj_methods"`
+	GlobalsRead       []string `json:"globals_read"`
+	GlobalsWritten    []string `json:"globals_written"`
+	Reach             []string `json:"reach"`
+	SigContent        bool     `json:"reads_signature_content"`
+	ObjAppends        []string `json:"obj_appends"`
+	SensitiveBodyHash string   `json:"sensitive_body_hash,omitempty"`
+	ctorPos           token.Pos
 	// F11
 	LoopStatuses map[string][]int `json:"loop_statuses,omitempty"`
 }
